@@ -12,6 +12,7 @@ import re
 import spec
 
 KIND = "reader-differs-from-rules"
+KIND_RT = "roundtrip-changes-title"
 _BARE_C = re.compile(r"^ {1,4}[cC]$")
 
 
@@ -134,3 +135,18 @@ def C01_spec_blank_within_limit(case, params):
 def C01_spec_unterminated_bare_c(case, params):
     """F-C01-spec-unterminated-bare-c"""
     return _is_case(case) and unterminated_bare_c(case["text"], case["width"]) and _confirmed(case)
+
+
+def C01_spec_title_last_column(case, params):
+    """F-C01-spec-title-last-column: the title (no message block) has exactly w columns once its trailing blanks are
+    dropped, and what is written is that title without its last character"""
+    if case.get("kind") != KIND_RT or "text" not in case:
+        return False
+    w = case["width"]
+    raws = case["text"].split("\n")
+    if not raws:
+        return False
+    t = _uncut(raws[0])[:w].rstrip(" ")
+    if t.upper().startswith("MESSAGE:") or len(t) != w:
+        return False
+    return case.get("title_read") == t and case.get("title_written") == t[:-1]
